@@ -218,6 +218,50 @@ Definition pm_timeb (m : pm) : bool :=
 Definition pm_invb (m : pm) : bool :=
   pm_rangeb m && ((pm_res m <=? 0) || pm_timeb m).
 
+(** * Which exception classes CAN surface, over every order in which the independent
+    assignments might be executed.  The code fills independent repeated fields (time
+    signatures, keys, infos, notes, bends, control changes); which failing assignment is
+    reached first depends on loop structure only, which the property does not constrain.
+    For constructed objects outside [pm_invb] the correspondence therefore compares the
+    implementation's exception class against this set, not against the first one
+    [convert] meets.  (For every object that a byte string parses to, the set is
+    {MIDIConversionError} or empty and the comparison stays exact.) *)
+Definition can_mce (m : pm) : bool :=
+  (pm_res m <=? 0) ||
+  existsb (fun t => negb (int32_ok (pt_den t))) (pm_tsigs m) ||
+  existsb (fun k => negb ((pk_number k / 12 =? 0) || (pk_number k / 12 =? 1))) (pm_keys m).
+
+Definition can_unicode (m : pm) : bool :=
+  existsb (fun i => existsb surrogate (pi_name i)) (pm_insts m).
+
+Definition nonempty {A} (l : list A) : bool := match l with [] => false | _ => true end.
+
+Definition inst_value_err (idx : Z) (i : pinst) : bool :=
+  (nonempty (pi_name i) && negb (int32_ok idx)) ||
+  ((nonempty (pi_notes i) || nonempty (pi_bends i) || nonempty (pi_ccs i)) &&
+     (negb (int32_ok idx) || negb (int32_ok (pi_program i)))) ||
+  existsb (fun n => negb (int32_ok (pn_pitch n)) || negb (int32_ok (pn_vel n))) (pi_notes i) ||
+  existsb (fun b => negb (int32_ok (pbd_pitch b))) (pi_bends i) ||
+  existsb (fun c => negb (int32_ok (pc_number c)) || negb (int32_ok (pc_value c))) (pi_ccs i).
+
+Fixpoint insts_value_err (idx : Z) (l : list pinst) : bool :=
+  match l with
+  | [] => false
+  | i :: r => inst_value_err idx i || insts_value_err (idx + 1) r
+  end.
+
+Definition can_value (m : pm) : bool :=
+  negb (int32_ok (pm_res m)) ||
+  existsb (fun t => negb (int32_ok (pt_num t))) (pm_tsigs m) ||
+  insts_value_err 0 (pm_insts m).
+
+Definition exn_possible (m : pm) (e : exn) : bool :=
+  match e with
+  | MIDIConversionError => can_mce m
+  | ValueError => can_value m
+  | UnicodeEncodeError => can_unicode m
+  end.
+
 (** * Well-formedness of the result (the property's second sentence) *)
 Definition note_byteb (n : note) : bool := byte7 (n_pitch n) && byte7 (n_vel n).
 Definition c16_wf (c : cseq) : Prop :=
